@@ -18,6 +18,7 @@ import (
 	ethcom "github.com/ethereum/go-ethereum/common"
 	ethtypes "github.com/ethereum/go-ethereum/core/types"
 	"github.com/ontio/ontology/common"
+	"github.com/ontio/ontology/core/store"
 	"github.com/ontio/ontology/core/store/ledgerstore"
 	"github.com/ontio/ontology/core/types"
 	"github.com/ontio/ontology/smartcontract/service/native/ont"
@@ -206,6 +207,7 @@ func main() {
 	dzCode := destroyContractCode()
 	dz := common.AddressFromVmCode(dzCode)
 	evmNonce := make([]uint64, len(w.Eth))
+	winN := 0
 	commitBoth := func(h int) {
 		var txs []*types.Transaction
 		switch h {
@@ -232,7 +234,27 @@ func main() {
 		if err != nil {
 			panic(err)
 		}
-		resA, errA := a.CommitExec(b)
+		// the split API the consensus services use: ExecuteBlock, (requests arrive), SubmitBlock.  On some
+		// blocks pre-executions are served inside that window; the committed result must not notice.
+		var resA store.ExecuteResult
+		var errA error
+		if h >= 2 && h%2 == 0 {
+			resA, errA = a.Ledger.ExecuteBlock(b)
+			if errA == nil {
+				for i := 0; i < 6; i++ {
+					winN++
+					pe := genPre(w, rng.Sub(uint64(winN)+5000000), dz, evmNonce)
+					if p := vf.Catch(func() { pe.run(a) }); p != nil {
+						r.Count("preexec_panicked")
+					}
+					r.Count("preexec_between_execute_and_submit")
+					r.Eval(fmt.Sprintf("window/%s/%d/%d", pe.kind, h, i))
+				}
+				errA = a.SubmitExecuted(b, resA)
+			}
+		} else {
+			resA, errA = a.CommitExec(b)
+		}
 		// the reference ledger receives the same block through the sync path
 		errR := ref.CommitSync(b, resA.MerkleRoot)
 		if errA != nil || errR != nil {
@@ -348,6 +370,7 @@ func main() {
 	r.Require("probe_block_compared", 3)
 	r.Require("blocks_compared_with_reference", 8)
 	r.Require("concurrent_preexec", 20)
+	r.Require("preexec_between_execute_and_submit", 12)
 	if racelog.Enabled {
 		racelog.Apply(r, "core/store/ledgerstore/", "smartcontract/storage/", "core/store/overlaydb/")
 	}
